@@ -169,7 +169,9 @@ fn mix(h: u64, bytes: &[u8]) -> u64 {
 impl Server {
     pub fn new(budget: usize, expiry: Duration) -> Server {
         Server {
-            handler: BlockHandler::new(BlockHandlerConfig { max_total_message_size: budget, cache_expiry_duration: expiry }),
+            // (struct update syntax: a configuration that grows another field keeps this driver compiling)
+            #[allow(clippy::needless_update)]
+            handler: BlockHandler::new(BlockHandlerConfig { max_total_message_size: budget, cache_expiry_duration: expiry, ..Default::default() }),
             budget,
             app_calls: Vec::new(),
             trace: 0,
